@@ -263,3 +263,51 @@ def scribble_related(U, A, rec, names):
                 rec.count("history:related-result-overwritten:" + name)
         except Exception:
             pass
+
+
+def meek_gadget_dag(seed_parts, max_edges=13):
+    """A DAG on 6..8 nodes built round the premises of Meek's rules 3 and 4: a node j with three (or four) parents k1..k, a
+    node i adjacent to all of them and to j, random adjacencies among the parents, one to three further nodes attached at random;
+    oriented along a random order in which j comes after its parents, then relabelled.  In random graphs of this size the
+    constellation "several candidate parents, only some pairs non-adjacent" is rare (below 0.1 %)."""
+    rng = util.rng_for(*seed_parts)
+    for _ in range(200):
+        nk = 3 if rng.random() < 0.75 else 4
+        extra = int(rng.integers(1, 4)) if nk == 3 else int(rng.integers(0, 3))
+        p = 2 + nk + extra
+        i, j = 0, 1
+        ks = list(range(2, 2 + nk))
+        xs = list(range(2 + nk, p))
+        und = set()
+        for k in ks:
+            und.add((k, j))
+            if rng.random() < 0.9:
+                und.add((i, k))
+        if rng.random() < 0.85:
+            und.add((i, j))
+        for a in range(nk):
+            for b in range(a + 1, nk):
+                if rng.random() < 0.5:
+                    und.add((ks[a], ks[b]))
+        for x in xs:
+            for y in rng.choice(p, int(rng.integers(1, 3)), replace=False):
+                if int(y) != x:
+                    und.add((min(x, int(y)), max(x, int(y))))
+        if len(und) > max_edges:
+            continue
+        # a random order with j after all its parents
+        order = [int(v) for v in rng.permutation(p)]
+        pos = {v: t for t, v in enumerate(order)}
+        last = max(pos[k] for k in ks)
+        if pos[j] < last:
+            a, b = pos[j], last
+            order[a], order[b] = order[b], order[a]
+            pos = {v: t for t, v in enumerate(order)}
+        out = [0] * p
+        for (a, b) in und:
+            if pos[a] < pos[b]:
+                out[a] |= 1 << b
+            else:
+                out[b] |= 1 << a
+        return gmat.relabel(out, rng)
+    return out
